@@ -316,10 +316,24 @@ Proof.
   - apply (astring_spelling p SpQuoted v k rest cs); [exact Hv|discriminate].
 Qed.
 
+Lemma existsb_crlf v :
+  existsb (fun c => (c =? CR) || (c =? LF)) v = existsb (N.eqb CR) v || existsb (N.eqb LF) v.
+Proof.
+  induction v as [|c v IH]; [reflexivity|]. cbn [existsb]. rewrite IH.
+  rewrite (N.eqb_sym CR c), (N.eqb_sym LF c).
+  destruct (c =? CR), (c =? LF), (existsb (N.eqb CR) v), (existsb (N.eqb LF) v); reflexivity.
+Qed.
+
+Lemma build_is_quoted_no_crlf binary v : build_is_quoted binary v = true -> no_crlf v = true.
+Proof.
+  unfold build_is_quoted, no_crlf. destruct v as [|c v]; [reflexivity|].
+  rewrite !andb_true_iff, !negb_true_iff. intros ((((_ & _) & Hcr) & Hlf) & _).
+  rewrite existsb_crlf, Hcr, Hlf. reflexivity.
+Qed.
+
 (* String.build(v): the quoted form parses back in place; the literal form is
    a synchronizing literal, whose payload reaches the parser as continuation *)
 Theorem string_build_roundtrip p binary v k rest cs :
-  (build_is_quoted binary v = true -> no_crlf v = true) ->
   (build_is_quoted binary v = false -> too_big p (blen v) = false /\ sp_allow_cont p = true) ->
   if build_is_quoted binary v
   then parse_string p cs (repeat SP k ++ string_build binary v ++ rest)
@@ -327,8 +341,9 @@ Theorem string_build_roundtrip p binary v k rest cs :
   else parse_string p ((v ++ rest) :: cs) (repeat SP k ++ lit_prefix binary (blen v))
        = POk (v, string_build binary v) rest cs.
 Proof.
-  intros Hq Hl. unfold string_build. destruct (build_is_quoted binary v) eqn:E.
-  - apply (string_spelling p SpQuoted v k rest cs); [discriminate|]. exact (Hq eq_refl).
+  intros Hl. unfold string_build. destruct (build_is_quoted binary v) eqn:E.
+  - apply (string_spelling p SpQuoted v k rest cs); [discriminate|].
+    exact (build_is_quoted_no_crlf _ _ E).
   - destruct (Hl eq_refl) as [Hb Hc]. unfold parse_string.
     destruct (lit_prefix_head binary (blen v)) as (c & r & Er & Hs & Hac & Hdq).
     rewrite parse_quoted_none_head.
@@ -363,14 +378,6 @@ Proof.
         cbn [head_sat]. apply N.eqb_neq. exact Hdq. }
     rewrite literal_sync_parse by assumption. reflexivity.
 Qed.
-
-(* the refuted form of DESIGN section 6 row 10 (String.build quotes CR) as
-   far as C18 is concerned: the built form of a value containing CR does not
-   parse back *)
-Theorem string_build_cr_refuted :
-  exists v, build_is_quoted false v = true /\
-    parse_string default_sparams [] (string_build false v) = PFail.
-Proof. exists [CR]. vm_compute. split; reflexivity. Qed.
 
 (* non-vacuity *)
 Example astring_spelling_example :
